@@ -71,7 +71,8 @@ def _h(*a):
 
 class Unit:
     """a translation unit of /repo (or a file generated from one)"""
-    def __init__(self, path, remove=(), defines=(), transform=None, native_path=None, flags=(), export_local=True, native=True):
+    def __init__(self, path, remove=(), defines=(), transform=None, native_path=None, flags=(), export_local=True, native=True, companions=()):
+        self.companions = tuple(companions)  # (repo-relative header, transform) written next to the generated unit so that #include "x.h" picks them up
         self.path = path              # relative to REPO, or absolute
         self.remove = tuple(remove)   # function bodies removed (replaced by harness stubs)
         self.defines = tuple(defines)
@@ -83,7 +84,7 @@ class Unit:
     def abspath(self):
         return self.path if os.path.isabs(self.path) else os.path.join(REPO, self.path)
     def key(self):
-        return _h(self.path, self.remove, self.defines, self.transform.__name__ if self.transform else None, self.flags, self.export_local)
+        return _h(self.path, self.remove, self.defines, self.transform.__name__ if self.transform else None, self.flags, self.export_local, [c[0] for c in self.companions])
     def build(self):
         k = self.key()
         with _build_lock:
@@ -95,13 +96,18 @@ class Unit:
             os.makedirs(d, exist_ok=True)
             stem = os.path.basename(self.path).replace('.', '_')
             src = self.abspath()
-            if self.transform:
-                text = self.transform(open(src, encoding='utf-8', errors='replace').read())
+            if self.transform or self.companions:
+                text = open(src, encoding='utf-8', errors='replace').read()
+                if self.transform:
+                    text = self.transform(text)
                 # keep the generated file next to the original name so that file-local symbol names match
                 gd = os.path.join(d, 'gen-' + k)
                 os.makedirs(gd, exist_ok=True)
                 src2 = os.path.join(gd, os.path.basename(self.path))
                 open(src2, 'w').write(text)
+                for rel, tr in self.companions:
+                    ctext = tr(open(os.path.join(REPO, rel), encoding='utf-8', errors='replace').read())
+                    open(os.path.join(gd, os.path.basename(rel)), 'w').write(ctext)
                 extra_i = ['-I' + os.path.dirname(src)]
                 src = src2
             else:
@@ -179,8 +185,10 @@ class Job:
         gbs = [u.build() for u in self.units]
         hs = []
         for i, p in enumerate(self._harness_paths(d)):
+            if not p.endswith('.c'):
+                continue
             o = os.path.join(d, 'h%d.gb' % i)
-            cmd = ['goto-cc'] + INC + HINC + ['-Werror=implicit-function-declaration'] + self.cflags + ['-D' + x for x in self.defines]
+            cmd = ['goto-cc'] + INC + HINC + ['-I' + d, '-Werror=implicit-function-declaration'] + self.cflags + ['-D' + x for x in self.defines]
             if witness:
                 cmd += ['-DWITNESS']
             cmd += ['--export-file-local-symbols', '-c', p, '-o', o]
@@ -201,8 +209,7 @@ class Job:
         for u in self.unwindset:
             cmd += ['--unwindset', u]
         cmd += ['--unwinding-assertions']
-        if self.object_bits:
-            cmd += ['--object-bits', str(self.object_bits)]
+        cmd += ['--object-bits', str(self.object_bits or 12)]
         if witness:
             cmd += ['--no-standard-checks', '--stop-on-fail']
         elif self.checks:
@@ -359,8 +366,8 @@ def native_replay(job, d, tape, tape_path):
                 defs.add('-D%s=%s' % (m.group(0), m.group(3)))
         exe = os.path.join(d, 'replay.exe')
         cmd = ['gcc', '-O0', '-g', '-fsanitize=address', '-fno-omit-frame-pointer', '-w', '-mavx2', '-msse4.2', '-DVF_NATIVE=1', '-DVF_HARNESS=' + job.entry] + INC + HINC
-        cmd += ['-D' + x for x in job.defines] + ['-D' + x for x in job.native_defines] + sorted(defs)
-        cmd += hps + [os.path.join(VERIF, 'harness/include/vf_native.c')] + objs
+        cmd += ['-I' + d] + ['-D' + x for x in job.defines] + ['-D' + x for x in job.native_defines] + sorted(defs)
+        cmd += [p for p in hps if p.endswith('.c')] + [os.path.join(VERIF, 'harness/include/vf_native.c')] + objs
         cmd += ['-Wl,--allow-multiple-definition', '-Wl,--gc-sections', '-Wl,--unresolved-symbols=ignore-all', '-o', exe] + job.native_libs
         rc, out, w, _, st = sh(cmd, timeout=600)
         if rc != 0:
@@ -395,8 +402,7 @@ def run_job(job, log):
         return res
     res['dir'] = d
     # ---------------- main query
-    trace_now = (job.kind == 'negctl')
-    cmd = job.cbmc_cmd(allgb, trace=trace_now)
+    cmd = job.cbmc_cmd(allgb)
     res['checker_cmd'] = ' '.join(cmd).replace(scratch(), '$SCRATCH')
     rc, out, wall, rss, st = sh(cmd, timeout=job.timeout, mem_gb=job.mem_gb, stderr=subprocess.DEVNULL)
     res['wall_s'] = round(wall, 2)
@@ -415,40 +421,32 @@ def run_job(job, log):
     res['stats'] = stats
     res['n_properties'] = len(props)
     failing = [p for p in props if p['status'] == 'FAILURE']
+    def desc(p):
+        return p.get('property', '') + ': ' + p.get('description', '')
+    # standard-level UB that no sanitizer can confirm (forming / comparing an out-of-bounds pointer): reported separately, never a verdict
+    ubrx = re.compile(r'\.pointer_arithmetic\.|\.pointer_relation\.|pointer relation:|pointer arithmetic:')
+    ub = [p for p in failing if ubrx.search(desc(p))]
+    failing = [p for p in failing if not ubrx.search(desc(p))]
+    res['ub_reports'] = [desc(p) for p in ub][:20]
     if job.decisive:
         rx = re.compile(job.decisive)
-        ignored = [p for p in failing if not rx.search(p.get('description', '') + ' ' + p.get('property', ''))]
-        failing = [p for p in failing if rx.search(p.get('description', '') + ' ' + p.get('property', ''))]
-        res['ignored_failures'] = [p['property'] + ': ' + p.get('description', '') for p in ignored][:20]
+        ignored = [p for p in failing if not rx.search(desc(p))]
+        failing = [p for p in failing if rx.search(desc(p))]
+        res['ignored_failures'] = [desc(p) for p in ignored][:20]
+    wit = [p for p in failing if 'VF_WITNESS' in p.get('description', '')]
+    failing = [p for p in failing if 'VF_WITNESS' not in p.get('description', '')]
+    has_wit = any('VF_WITNESS' in p.get('description', '') for p in props)
     unwind_fail = [p for p in failing if 'unwinding assertion' in p.get('description', '')]
-    res['failing'] = [p['property'] + ': ' + p.get('description', '') for p in failing][:20]
-    if unwind_fail:
-        res['status'] = 'broken'; res['detail'] = 'unwinding assertion failed (bound too small): ' + unwind_fail[0]['property']
-        log('[%s] BROKEN: %s' % (job.name, res['detail']))
-        return res
-    if job.kind == 'negctl':
-        if not failing:
-            res['status'] = 'broken'; res['detail'] = 'negative control came back UNSAT: harness cannot see a wrong oracle'
-            log('[%s] BROKEN: negative control passed' % job.name)
-            return res
-        tr = None
-        for p in failing:
-            if 'trace' in p:
-                tr = p['trace']; break
-        res['status'] = 'negctl-ok'
-        if tr is not None and job.native:
-            tape = extract_tape(tr)
-            tp = os.path.join(d, 'tape.txt')
-            open(tp, 'w').write('\n'.join(str(x) for x in tape) + '\n')
-            rs, ro = native_replay(job, d, tape, tp)
-            res['replay'] = rs
-            if not rs.startswith('reproduced'):
-                res['replay_out'] = ro[-800:]
-        log('[%s] negctl SAT as expected (%.1fs)%s' % (job.name, wall, (' replay=' + res.get('replay', '')) if 'replay' in res else ''))
-        return res
-    if failing:
-        # counterexample: get the trace of the first failing property
-        p0 = failing[0]
+    failing = [p for p in failing if 'unwinding assertion' not in p.get('description', '')]
+    def rank(p):
+        d = desc(p)
+        if 'pointer_dereference' in d or 'array_bounds' in d or 'dereference failure' in d: return 0
+        if 'VF:' in d: return 1
+        return 2
+    failing.sort(key=rank)
+    res['failing'] = [desc(p) for p in failing + unwind_fail][:20]
+
+    def get_trace_and_replay(p0):
         cmd2 = job.cbmc_cmd(allgb, trace=True, prop=p0['property'])
         rc2, out2, wall2, rss2, st2 = sh(cmd2, timeout=job.timeout, mem_gb=job.mem_gb, stderr=subprocess.DEVNULL)
         tape = None
@@ -458,37 +456,53 @@ def run_job(job, log):
                 for p in pr[1]:
                     if 'trace' in p:
                         tape = extract_tape(p['trace']); break
-        res['status'] = 'cex'
-        res['cex_property'] = p0['property'] + ': ' + p0.get('description', '')
         res['tape'] = tape
+        res['cex_property'] = desc(p0)
         if tape is not None and job.native:
             tp = os.path.join(d, 'tape.txt')
             open(tp, 'w').write('\n'.join(str(x) for x in tape) + '\n')
             rs, ro = native_replay(job, d, tape, tp)
             res['replay'] = rs; res['replay_out'] = ro[-1500:]
+
+    if job.kind == 'negctl':
+        if not failing:
+            res['status'] = 'broken'; res['detail'] = 'negative control came back UNSAT: harness cannot see a wrong oracle'
+            log('[%s] BROKEN: negative control passed' % job.name)
+            return res
+        res['status'] = 'negctl-ok'
+        if job.native:
+            vfp = [p for p in failing if 'VF:' in desc(p)] or failing
+            get_trace_and_replay(vfp[0])
+        log('[%s] negctl SAT as expected (%.1fs)%s' % (job.name, wall, (' replay=' + str(res.get('replay'))) if 'replay' in res else ''))
+        return res
+    if failing:
+        get_trace_and_replay(failing[0])
+        res['status'] = 'cex'
         log('[%s] COUNTEREXAMPLE %s replay=%s' % (job.name, res['cex_property'], res.get('replay')))
         return res
-    # ---------------- UNSAT: reachability twin
+    if unwind_fail:
+        # a loop runs past the stated bound: either the bound is too small (machinery broken) or the code loops on some input;
+        # the latter shows natively as a crash / sanitizer report / time-out
+        if job.native:
+            get_trace_and_replay(unwind_fail[0])
+            if str(res.get('replay', '')).startswith(('reproduced', 'timeout')):
+                res['status'] = 'cex'
+                log('[%s] COUNTEREXAMPLE (loop beyond bound) %s replay=%s' % (job.name, res['cex_property'], res.get('replay')))
+                return res
+        res['status'] = 'broken'; res['detail'] = 'unwinding assertion failed (bound too small): ' + unwind_fail[0]['property'] + ' replay=' + str(res.get('replay'))
+        log('[%s] BROKEN: %s' % (job.name, res['detail']))
+        return res
+    # ---------------- UNSAT for every property; the witness assert(0) must have been reported violated in the same run
     res['status'] = 'pass'
     if not job.nowitness:
-        try:
-            dw, wgb = job.build(witness=True)
-            cmdw = job.cbmc_cmd(wgb, witness=True)
-            rcw, outw, wallw, rssw, stw = sh(cmdw, timeout=job.timeout, mem_gb=job.mem_gb, stderr=subprocess.DEVNULL)
-            res['witness_wall_s'] = round(wallw, 2)
-            if stw == 'timeout':
-                res['witness'] = 'timeout'
-                res['status'] = 'undecided'; res['detail'] = 'witness twin timed out'
-            else:
-                pw = parse_cbmc_json(outw)
-                ok = False
-                if len(pw) == 4:
-                    ok = any(p['status'] == 'FAILURE' and 'VF_WITNESS' in p.get('description', '') for p in pw[1])
-                res['witness'] = 'reachable' if ok else 'UNREACHABLE'
-                if not ok:
-                    res['status'] = 'broken'; res['detail'] = 'witness twin: end of harness not reachable (vacuous)'
-        except BuildError as e:
-            res['status'] = 'broken'; res['detail'] = 'witness build: ' + str(e)[-800:]
+        if not has_wit:
+            res['witness'] = 'missing'
+            res['status'] = 'broken'; res['detail'] = 'harness has no VF_WITNESS()'
+        elif wit:
+            res['witness'] = 'reachable'
+        else:
+            res['witness'] = 'UNREACHABLE'
+            res['status'] = 'broken'; res['detail'] = 'end of harness not reachable (vacuous: assumptions unsatisfiable or harness cut short)'
     log('[%s] %s  %.1fs (symex %.1fs, solver %.1fs, %s props, %s steps) witness=%s' % (
         job.name, res['status'].upper(), wall, stats.get('symex_s', 0), stats.get('solver_s', stats.get('decision_s', 0)),
         len(props), stats.get('steps', '?'), res.get('witness')))
@@ -509,15 +523,15 @@ def run_jobs(jobs, log):
             log('[%s] DRIVER EXCEPTION %s' % (j.name, e))
         finally:
             with lock:
-                state['mem'] -= j.mem_gb; state['running'] -= 1
+                state['mem'] -= j.mem_gb / 2.0; state['running'] -= 1
                 lock.notify_all()
     with lock:
         while pending:
             started = False
             for j in list(pending):
-                if state['running'] < NCPU and (state['mem'] + j.mem_gb <= MEM_TOTAL_GB or state['running'] == 0):
+                if state['running'] < NCPU and (state['mem'] + j.mem_gb / 2.0 <= MEM_TOTAL_GB or state['running'] == 0):
                     pending.remove(j)
-                    state['mem'] += j.mem_gb; state['running'] += 1
+                    state['mem'] += j.mem_gb / 2.0; state['running'] += 1
                     t = threading.Thread(target=worker, args=(j,)); t.start(); threads.append(t)
                     started = True
                     break
@@ -551,7 +565,7 @@ def repo_source_digest(units):
             pass
     return h.hexdigest()[:16]
 
-def finish(prop, tier, seed, jobs, t0, level='model_checking', assumptions=(), trusted=(), bounds=None, outside=(), extra=None, known_keys=None):
+def finish(prop, tier, seed, jobs, t0, level='model_checking', assumptions=(), trusted=(), bounds=None, outside=(), extra=None, known_keys=None, write=True):
     """write evidence, print verdict lines, return exit code.
     known_keys: dict job.name -> finding key; a counterexample on a job whose name is listed there and which is
     listed in known_findings.txt is printed as KNOWN-FINDING and does not fail the check."""
@@ -579,12 +593,12 @@ def finish(prop, tier, seed, jobs, t0, level='model_checking', assumptions=(), t
             known_hit.append((j, kf[key]))
             continue
         rs = r.get('replay')
-        if j.native and rs is not None and not (rs.startswith('reproduced')):
+        if j.native and rs is not None and not (rs.startswith('reproduced') or rs.startswith('timeout')):
             # does not reproduce natively: engine / model disagreement, neither pass nor violation
             disagreements.append(j)
             continue
         viol.append(j)
-    traces_validated = sum(1 for j in jobs if j.result and str(j.result.get('replay', '')).startswith('reproduced'))
+    traces_validated = sum(1 for j in jobs if j.result and str(j.result.get('replay', '')) == 'reproduced')
     wall = time.time() - t0
     funcs = sorted(set(f for j in jobs for f in j.funcs))
     samples = []
@@ -597,15 +611,16 @@ def finish(prop, tier, seed, jobs, t0, level='model_checking', assumptions=(), t
     ev = {
         'property_id': prop, 'tier': tier, 'seed': seed, 'level': level,
         'coverage': {
-            'evaluations': len(jobs) + sum(1 for j in obligations if j.result and j.result.get('witness')),
+            'evaluations': len(jobs),
             'distinct_nontrivial': len(set(j.name for j in discharged if j.result.get('witness') == 'reachable' or j.nowitness)) + sum(1 for j in negs if j.result and j.result['status'] == 'negctl-ok'),
             'rule': 'one evaluation = one solver query (CBMC bounded symbolic execution of the real functions + SAT verdict over all inputs within the bound); '
-                    'distinct non-trivial = distinct obligations that came back UNSAT and whose -DWITNESS twin proved the end of the harness reachable, plus negative controls (deliberately wrong oracle) that came back SAT',
+                    'distinct non-trivial = distinct obligations whose properties all came back UNSAT while the witness assert(0) at the end of the harness was reported reachable in the same run, plus negative controls (deliberately wrong oracle) that came back SAT',
             'obligations': len(obligations), 'discharged': len(discharged),
             'negative_controls': len(negs), 'negative_controls_sat': sum(1 for j in negs if j.result and j.result['status'] == 'negctl-ok'),
             'undecided': [j.name + ': ' + str(j.result.get('detail')) for j in undecided],
             'broken': [j.name + ': ' + str((j.result or {}).get('detail'))[:300] for j in broken],
             'engine_disagreements': [j.name for j in disagreements],
+            'ub_reports_not_decisive': sorted(set(x for j in jobs for x in (j.result or {}).get('ub_reports', [])))[:40],
             'known_findings_hit': [k['key'] for _, k in known_hit],
             'traces_validated_against_impl': traces_validated,
             'functions_encoded': funcs,
@@ -627,8 +642,9 @@ def finish(prop, tier, seed, jobs, t0, level='model_checking', assumptions=(), t
     }
     if extra:
         ev['coverage'].update(extra)
-    os.makedirs(os.path.join(VERIF, 'evidence'), exist_ok=True)
-    json.dump(ev, open(os.path.join(VERIF, 'evidence', prop + '.json'), 'w'), indent=1)
+    if write:
+        os.makedirs(os.path.join(VERIF, 'evidence'), exist_ok=True)
+        json.dump(ev, open(os.path.join(VERIF, 'evidence', prop + '.json'), 'w'), indent=1)
     for j, k in known_hit:
         print('KNOWN-FINDING: property=%s %s [%s]' % (prop, k['text'], k['key']))
     for j in disagreements:
